@@ -54,9 +54,24 @@ def deleg_case(rng, gpg: bool):
     return role, u, trusted
 
 
+def near_miss_case(rng, gpg: bool):
+    """the role asked for is a near miss of a delegated role, and the envelope is properly signed by that delegated role's keys"""
+    real = rng.choice(["key_mgr", "pkg_mgr", "root", "channeler"])
+    ks = [gen.key(i) for i in rng.sample(range(8), rng.randint(1, 2))]
+    dels = {real: gen.delegation(ks, len(ks)), "zz": gen.delegation([gen.key(9)], 1)}
+    trusted = gen.envelope(gen.delegating_md(rng.choice(["root", "key_mgr"]), dels))
+    asked = rng.choice([real + ".json", real.upper(), real.capitalize(), real + " ", " " + real, real[:-1], real + "s", real.replace("_", "-"), real + "\n", real + "/", "./" + real, real + ".JSON"])
+    u = gen.sign_env(gen.envelope(envgen.payload(rng) if rng.random() < 0.7 else {"type": asked, "x": 1}), ks, gpg, rng)
+    return asked, u, trusted
+
+
 def run(ck: Check) -> None:
     rng = ck.rng
     cases = []
+    for i in range(400 if ck.thorough else 70):
+        gpg = bool(i % 2)
+        role, u, t = near_miss_case(rng, gpg)
+        cases.append(Case("vdeleg", [role, u, t, gpg], tag="near-miss-role", group=100000 + i))
     for i in range(3000 if ck.thorough else 500):
         gpg = bool(i % 2)
         role, u, t = deleg_case(rng, gpg)
